@@ -3,6 +3,7 @@
 One inductive step from an arbitrary pre-state: HashMapContext methods and Operator::eval_mut for the 9 assignment operators are executed
 from MIR on a pre-state whose variable map is any map over two names with values of any of the 6 types (symbolic payloads), an optional
 user function and a symbolic builtin flag; the result and the complete post-state must equal those of an abstract map model."""
+import zlib
 import sys, os, time, random, itertools, re
 import z3
 sys.path.insert(0, os.path.dirname(os.path.dirname(os.path.abspath(__file__))))
@@ -13,6 +14,7 @@ from ctxlib import *
 import c03
 
 PID = 'C04'
+CVC5_RATE = [0.01]
 TYPES = ['I', 'F', 'B', 'S1', 'T1', 'E']
 TYPE_ERR = {'I': 'ExpectedInt', 'F': 'ExpectedFloat', 'B': 'ExpectedBoolean', 'S': 'ExpectedString', 'T': 'ExpectedTuple', 'E': 'ExpectedEmpty'}
 OPASSIGN = {'AddAssign': 'Add', 'SubAssign': 'Sub', 'MulAssign': 'Mul', 'DivAssign': 'Div', 'ModAssign': 'Mod', 'ExpAssign': 'Exp', 'AndAssign': 'And', 'OrAssign': 'Or'}
@@ -122,7 +124,7 @@ def unit(u, res):
     kind = u[0]
     C = ctx()
     timeout_ms = u[-2]
-    pr = checklib.Prover(res, timeout_ms)
+    pr = checklib.Prover(res, timeout_ms, CVC5_RATE[0], random.Random(zlib.crc32(repr(u).encode()) ^ checklib.env_seed()))
     if kind == 'set':
         _, tx, ty, name, tv, with_fn, timeout_ms, seed = u
         pre = Pre(C, tx, ty, with_fn)
@@ -356,6 +358,7 @@ def main():
     t0 = time.time()
     tier = checklib.env_tier()
     seed = checklib.env_seed()
+    CVC5_RATE[0] = 0.01 if tier == 'quick' else 0.1
     timeout_ms = 60000 if tier == 'quick' else 600000
     frontend.load(overflow_checks=True)
     opts = [None] + TYPES
